@@ -270,6 +270,39 @@ def run_family(prop, clauses, tier, focus, count_quick, count_thorough, sig_fn=N
             for s_, r_ in pairs:
                 scns.append(s_)
                 results.append(r_)
+    if focus == "reap":
+        # a child exits and its SIGCHLD is handled between two arbitrary LINES of Conductor's code (not only around system
+        # calls): every executed line of the execution modules of a reference run, from the first spawn on
+        EXEC = {"executor.py", "run_task_executable.py", "operation.py", "sigchld.py", "handle.py", "output_handler.py", "tee.py"}
+        shapes_l = [{"n": 3, "target": 3, "deps": [[], [], [1, 2]], "kind": ["exp", "cmd", "group"], "par": [True, True, False],
+                     "cachedTs": [0] * 3, "stale": [False] * 3, "again": False, "atLeast": False, "now": 1000, "lastTs0": 0},
+                    {"n": 3, "target": 3, "deps": [[], [1], [2]], "kind": ["cmd", "exp", "cmd"], "par": [False, True, False],
+                     "cachedTs": [0] * 3, "stale": [False] * 3, "again": False, "atLeast": False, "now": 1000, "lastTs0": 0}]
+        refs = []
+        for sh in shapes_l:
+            r_scn = RC.scenario_from_graph(sh, placement=0, jobs=2, sched={"seed": 5, "p_exit": 0.02, "p_deliver": 0.9})
+            r_scn["log_lines"] = True
+            r_scn["count_lines"] = True
+            refs.append(r_scn)
+        line_scns = []
+        for sh, r_scn, r_res in zip(shapes_l, refs, RC.run_batch(refs)):
+            if r_res is None or "_error" in r_res or "_timeout" in r_res:
+                rep.machinery("reference run for line-level signals failed: %s" % str(r_res)[:300])
+                continue
+            log = r_res.get("line_log") or []
+            first_spawn = next((i for i, (f, ln, fn) in enumerate(log) if fn == "start_execution"), 0)
+            picks = [i + 1 for i, (f, ln, fn) in enumerate(log) if i >= first_spawn and f in EXEC]
+            if tier == "quick":
+                picks = picks[::2] if len(picks) > 400 else picks
+            for k_ in picks:
+                sc = RC.scenario_from_graph(sh, placement=0, jobs=2, sched={"seed": 5, "p_exit": 0.02, "p_deliver": 0.9})
+                sc["sigchld_at"] = k_
+                sc["count_lines"] = True
+                line_scns.append(sc)
+        line_res = RC.run_batch(line_scns) if line_scns else []
+        scns += line_scns
+        results += line_res
+        rep.cov["signals_between_lines"] = len(line_scns)
     verdicts, traces, errs, tr = RC.judge_batch(scns, results)
     for i, r in errs:
         rep.machinery("scenario %d failed: %s" % (i, str(r)[:600]))
